@@ -18,15 +18,13 @@ use gimli::read::{EvaluationResult, EvaluationStorage, Location, Operation, Piec
 use gimli::{DieReference, EndianSlice, Evaluation, Expression, RunTimeEndian, StoreOnHeap, Value, ValueType};
 use serde_json::{json, Value as J};
 
-/// Genuine findings on the unchanged tree that are skipped locally, so that the rest of the
-/// check stays strict: a run in which the *model* flags one of these exact situations
-/// (`Outcome::known`) has its mismatches counted (`skipped_known.*`) instead of reported.
-/// Set to `false` once the defect is repaired in the tree.  See REPORT.md.
-///  1. `generic_shift_count_unreduced`: Value::shift_length does not reduce a generic
-///     shift count modulo the address size.
-///  2. `convert_negative_integer_to_float`: Value::convert of a negative signed integer
-///     to F32/F64 goes through u64.
-const SKIP_KNOWN_FINDINGS: bool = true;
+/// Local skips for genuine findings that are reported but not yet repaired: a run in
+/// which the *model* flags such a situation (`Outcome::known`) has its mismatches counted
+/// (`skipped_known.*`) instead of reported.  Nothing is skipped at present: the two
+/// findings of this check (generic shift count not reduced modulo the address size;
+/// convert of a negative signed integer to a float) are repaired in the tree and kept as
+/// permanent regression cases in stream "regress".
+const SKIP_KNOWN_FINDINGS: bool = false;
 
 pub fn info() -> PropInfo {
     PropInfo {
@@ -62,7 +60,7 @@ pub fn info() -> PropInfo {
             "storage.heap", "storage.tiny", "storage.small", "storage.mid", "storage.stackfull.values", "storage.stackfull.calls", "storage.stackfull.pieces",
             "piece.location.Empty", "piece.location.Register", "piece.location.Address", "piece.location.Value", "piece.location.Bytes", "piece.location.ImplicitPointer",
             "loop.backward_branch_taken", "call.returned", "hook.op_parse_calls",
-            "matrix.generic", "matrix.typed", "short3", "short4", "random",
+            "matrix.generic", "matrix.typed", "short3", "short4", "random", "regress",
         ],
         run,
     }
@@ -1119,7 +1117,44 @@ fn witnesses(ctx: &mut Ctx) {
     }
 }
 
+/// Permanent regression cases for the defects this check found on the pinned tree (both
+/// repaired by `fix:` commits in /repo; see known_findings / REPORT.md).
+fn regressions(ctx: &mut Ctx) {
+    // (name, address size, program, base types are answered by `type_of_base`)
+    let cases: Vec<(&str, u8, Vec<u8>)> = vec![
+        // lit1; const4u 0xfffffffe; not; shl  -> 1 << 1 (the count ~0xfffffffe is 1 modulo 2^32)
+        ("generic shift count after not (shl)", 4, vec![0x31, 0x0c, 0xfe, 0xff, 0xff, 0xff, 0x20, 0x24]),
+        ("generic shift count after not (shr)", 4, vec![0x34, 0x0c, 0xfe, 0xff, 0xff, 0xff, 0x20, 0x25]),
+        ("generic shift count after not (shra)", 4, vec![0x0d, 0xf0, 0xff, 0xff, 0xff, 0x0c, 0xfe, 0xff, 0xff, 0xff, 0x20, 0x26]),
+        // const8u 2; const8u 0x101; shr; stack_value on a 1-byte target -> 1
+        ("generic shift count wider than the address", 1, vec![0x0e, 2, 0, 0, 0, 0, 0, 0, 0, 0x0e, 1, 1, 0, 0, 0, 0, 0, 0, 0x25, 0x9f]),
+        // const_type I8 -56; convert F32; convert I64; convert U32; convert generic -> 0xffc8
+        ("convert negative i8 to f32", 2, vec![0xa4, 0x01, 0x01, 0xc8, 0xa8, 0x09, 0xa8, 0x07, 0xa8, 0x06, 0xa8, 0x00]),
+        // const_type I64 -1; convert F64; stack_value -> -1.0
+        ("convert negative i64 to f64", 8, vec![0xa4, 0x07, 0x08, 0xff, 0xff, 0xff, 0xff, 0xff, 0xff, 0xff, 0xff, 0xa8, 0x0a, 0x9f]),
+        ("convert negative i16 to f64", 4, vec![0xa4, 0x03, 0x02, 0x00, 0x80, 0xa8, 0x0a, 0x9f]),
+        ("convert negative i32 to f32", 4, vec![0xa4, 0x05, 0x04, 0xfe, 0xff, 0xff, 0xff, 0xa8, 0x09, 0x9f]),
+    ];
+    for (i, (name, addr, code)) in cases.iter().enumerate() {
+        if !ctx.want("regress", i as u64) {
+            continue;
+        }
+        let enc = Enc { le: true, fmt64: false, version: 5, addr: *addr };
+        let cfg = base_cfg(enc);
+        let script = plain_script(i as u64);
+        if let Some(m) = one_case(ctx, "regress", code, &cfg, &script) {
+            ctx.obs("regress");
+            ctx.counted_distinct += 1;
+            if i == 0 || i == 4 {
+                ctx.sample("regress", || json!({"name": name, "program": hex(code), "address_size": addr, "model_end": show_end(&m.end),
+                    "gimli_end": format!("{:?}", crate::rt::capture(|| drive(code, &cfg, &script, 16)).map(|g| g.end).ok())}));
+            }
+        }
+    }
+}
+
 pub fn run(ctx: &mut Ctx) {
+    regressions(ctx);
     witnesses(ctx);
     decode_catalogue(ctx);
     operand_matrix(ctx);
